@@ -77,7 +77,11 @@ def check(pm: ProgramModel, ctx: Ctx) -> None:
         w_ = run_writer(pm, W, m_old)
         if w_["raise"] or w_["written"] is None:
             continue
-        doc_ = _json.loads(w_["written"])
+        try:
+            doc_ = _json.loads(w_["written"])
+        except (ValueError, TypeError) as exc_:
+            ctx.violation("C05-TYPE", f"abstract-as-text:{spell}", wwhere, f"what the writer wrote is not a JSON document: {exc_}")
+            continue
 
         def retext(node: Any) -> None:
             if isinstance(node, dict):
